@@ -236,11 +236,22 @@ func parseRaceLog(text string) []raceReport {
 			r := raceReport{a: sites[0][0], fa: sites[0][1], b: sites[1][0], fb: sites[1][1], text: blk}
 			// an access without a library frame: an atomic operation of library code that was inlined into
 			// its caller (the other access decides the scope) - anything else is the harness' own access
-			if r.a == "" && strings.HasPrefix(tops[0], "sync/atomic.") {
-				r.a = "(inlined atomic)"
+			// ... and when library frames are left, the innermost one may be a caller of the function that really
+			// contains the atomic operation (Catalog.CreateTable inlined into the planner): the site of an atomic
+			// access is never used to decide the scope
+			if strings.HasPrefix(tops[0], "sync/atomic.") {
+				if r.a == "" {
+					r.a = "(inlined atomic)"
+				} else {
+					r.a, r.fa = "(atomic in "+r.a+")", ""
+				}
 			}
-			if r.b == "" && strings.HasPrefix(tops[1], "sync/atomic.") {
-				r.b = "(inlined atomic)"
+			if strings.HasPrefix(tops[1], "sync/atomic.") {
+				if r.b == "" {
+					r.b = "(inlined atomic)"
+				} else {
+					r.b, r.fb = "(atomic in "+r.b+")", ""
+				}
 			}
 			if r.a > r.b {
 				r.a, r.b, r.fa, r.fb = r.b, r.a, r.fb, r.fa
@@ -305,8 +316,8 @@ func c19Run(c *core.Ctx) {
 				seen[sig] = true
 				// (an access whose library frame was inlined away - e.g. sync/atomic called directly from a small
 				// function - has no site of its own: the other access decides)
-				okA := c19InScope(r.fa) || r.a == "(inlined atomic)"
-				okB := c19InScope(r.fb) || r.b == "(inlined atomic)"
+				okA := c19InScope(r.fa) || strings.HasSuffix(r.a, "atomic)") || strings.HasPrefix(r.a, "(atomic in ")
+				okB := c19InScope(r.fb) || strings.HasSuffix(r.b, "atomic)") || strings.HasPrefix(r.b, "(atomic in ")
 				if okA && okB && (r.fa != "" || r.fb != "") {
 					res.Outcome("data-path-race:" + r.a + "<>" + r.b)
 					res.Violate(&core.Violation{Property: "C19", Signature: strings.ReplaceAll(sig, " ", ""),
@@ -314,6 +325,11 @@ func c19Run(c *core.Ctx) {
 						Replay: map[string]any{"sites": []string{r.a, r.b}, "scenario": scName, "choices": choices, "thorough": c.Thorough()}})
 				} else {
 					outOfScope = append(outOfScope, fmt.Sprintf("%s (%s) <> %s (%s)", r.a, r.fa, r.b, r.fb))
+					if d := os.Getenv("VERIF_C19_DUMP"); d != "" {
+						f, _ := os.OpenFile(d, os.O_APPEND|os.O_CREATE|os.O_WRONLY, 0o644)
+						fmt.Fprintf(f, "#### %s <> %s   scenario %s\n%s\n", r.a, r.b, scName, firstN(r.text, 4000))
+						f.Close()
+					}
 				}
 			}
 		}
